@@ -181,7 +181,39 @@ func aimCase(r *vf.Rng, op byte, mx byte) (ref.State, *mem.Image) {
 	img.Ov[pca(1)] = o[0]
 	img.Ov[pca(2)] = o[1]
 	img.Ov[pca(3)] = o[2]
+	if r.Intn(2) == 0 {
+		edgeData(r, s, img)
+	}
 	return s, img
+}
+
+// edgeData overlays the data bytes the instruction will read (as located by
+// the model) with boundary values, so that results like $FFFF+1, $8000<<1 or
+// an all-zero operand occur far more often than in a uniformly random image.
+func edgeData(r *vf.Rng, s ref.State, img *mem.Image) {
+	probe := img.Clone()
+	probe.KeepLog = true
+	st := s
+	ref.Step(&st, mem.RefMem{M: probe})
+	k := uint32(s.K) << 16
+	both := []byte{0x00, 0xFF, 0x7F, 0x80, 0x01, 0xFE}[r.Intn(6)]
+	same := r.Intn(2) == 0
+	for _, a := range probe.Log {
+		if a.Write {
+			continue
+		}
+		if _, set := img.Ov[a.Addr]; set {
+			continue // code, operand or pointer bytes chosen above
+		}
+		if a.Addr&0xFF0000 == k && uint16(a.Addr)-s.PC < 4 {
+			continue
+		}
+		if same {
+			img.Ov[a.Addr] = both
+		} else {
+			img.Ov[a.Addr] = edge8(r)
+		}
+	}
 }
 
 type c01worker struct {
